@@ -27,17 +27,6 @@ func (s *vhSink) Write(p []byte) (int, error) {
 
 func (s *vhSink) Close() error { return nil }
 
-// vhCatch runs f and reports whether it panicked.
-func vhCatch(f func()) (panicked bool) {
-	defer func() {
-		if r := recover(); r != nil {
-			panicked = true
-		}
-	}()
-	f()
-	return false
-}
-
 // vhOutState builds an arbitrary open writer state satisfying representation invariant A.1 of DESIGN.md.
 func vhOutState(L int, room int) (*DefaultOutputBitStream, *vhSink) {
 	pos := vhInt("position")
